@@ -192,15 +192,17 @@ def local_roles(fn, roles, res=None, scope=None):
     return mapping
 
 
-def lit_srcs(p, mapping, upto=None):
-    """p.literal_srcs() with local names substituted (see local_roles)."""
+def lit_srcs(p, mapping, upto=None, norm=False):
+    """p.literal_srcs() with local names substituted (see local_roles); with norm=True every literal is also
+    written in the canonical spelling of A.norm_src (`0 > i` reads `i < 0`), so that expected strings written
+    in that spelling match however the analysed code spells the comparison."""
     out = []
     evs = p.ev if upto is None else p.ev[:upto]
     for e in evs:
         if e[0] != "cond":
             continue
         for t, pol in A.literals(e[1], e[2]):
-            s = A.src_with(t, mapping)
+            s = A.norm_src(t, mapping) if norm else A.src_with(t, mapping)
             if not pol:
                 s = "not (%s)" % s if isinstance(t, (ast.BoolOp, ast.Compare, ast.IfExp)) else "not " + s
             out.append(s)
